@@ -125,7 +125,10 @@ Return ==
   /\ ref' = BruteForce
   /\ UNCHANGED <<W, queue, visited, prev, minflux, test, path, flux>>
 
-Next == Pop \/ StopWhenSinksVisited \/ Relax \/ Exhausted \/ ChooseSink \/ Follow \/ Return
+(* TLC checks deadlock freedom: every behaviour reaches "done" (no step is stuck) *)
+Terminated == pc = "done" /\ UNCHANGED vars
+
+Next == Pop \/ StopWhenSinksVisited \/ Relax \/ Exhausted \/ ChooseSink \/ Follow \/ Return \/ Terminated
 
 Spec == Init /\ [][Next]_vars
 
